@@ -52,6 +52,13 @@ var p256 = &Curve{
 	Gy:   hexInt("4fe342e2fe1a7f9b8ee7eb4a7c0f9e162bce33576b315ececbb6406837bf51f5"),
 }
 
+func init() {
+	for _, c := range []*Curve{secp, p256} {
+		e := new(big.Int).Add(c.P, big.NewInt(1))
+		c.sqrtExp = e.Rsh(e, 2)
+	}
+}
+
 // Secp256k1 returns the secp256k1 parameters (SEC 2, 2.4.1).
 func Secp256k1() *Curve { return secp }
 
@@ -244,10 +251,6 @@ func (c *Curve) Compress(p Pt) []byte {
 
 // LiftX returns a point with the given x coordinate, if one exists (p = 3 mod 4 for both curves).
 func (c *Curve) LiftX(x *big.Int) (Pt, bool) {
-	if c.sqrtExp == nil {
-		e := new(big.Int).Add(c.P, big.NewInt(1))
-		c.sqrtExp = e.Rsh(e, 2)
-	}
 	r := new(big.Int).Mul(x, x)
 	r.Mul(r, x)
 	r.Add(r, new(big.Int).Mul(c.A, x))
